@@ -9,7 +9,7 @@ VARIABLE l
 TInit == l = 1 /\ TLCSet(1, 1)
 TStep == /\ l <= Len(Trace)
          /\ \/ Trace[l].ev = "init"
-            \/ Trace[l].ev = "activation" /\ Conforms(Trace[l]) /\ Means(Trace[l])
+            \/ Trace[l].ev = "activation" /\ Conforms(Trace[l]) /\ Means(Trace[l]) /\ ConformsGoal(Trace[l]) /\ MeansGoal(Trace[l])
          /\ l' = l + 1
 TSpec == TInit /\ [][TStep]_l
 HW == TLCSet(1, IF TLCGet(1) < l THEN l ELSE TLCGet(1))
